@@ -15,6 +15,21 @@ def ptstr(p):
     return q2(p[0]) + ' ' + q2(p[1])
 
 
+def canon_key(c):
+    return (round(float(c.centre[0]), 6), round(float(c.centre[1]), 6))
+
+
+def canonical_columns(g):
+    """the columns in an order that does not depend on how the geometry was built"""
+    return sorted(g.columnlist, key=canon_key)
+
+
+def canonical_polygon(P):
+    """the vertex list rotated to start at its smallest vertex (same orientation)"""
+    k = min(range(len(P)), key=lambda i: (round(P[i][0], 6), round(P[i][1], 6)))
+    return P[k:] + P[:k]
+
+
 def build_geo(spec, repo):
     """Build the mulgrid described by spec (a dict)."""
     from mulgrids import mulgrid
@@ -26,7 +41,10 @@ def build_geo(spec, repo):
         names = [g.columnlist[i].name for i in spec['delete'] if i < len(g.columnlist)]
         for nm in names: g.delete_column(nm)
     for ref in spec.get('refine') or []:
-        cols = [g.columnlist[i] for i in ref if i < len(g.columnlist)]
+        # mulgrid.refine() orders/names its new columns through sets of objects (address order: differs from
+        # process to process), so columns are always picked by their rank in a canonical order (by centre)
+        canon = canonical_columns(g)
+        cols = [canon[i] for i in ref if i < len(canon)]
         if cols: g.refine(cols)
     if spec.get('translate'):
         g.translate(spec['translate'])
@@ -36,7 +54,7 @@ def build_geo(spec, repo):
         r = random.Random(spec['surface_seed'])
         top = g.layerlist[0].bottom
         bot = g.layerlist[-1].bottom
-        for col in g.columnlist:
+        for col in canonical_columns(g):
             u = r.random()
             if u < 0.35: continue
             if u < 0.5: col.surface = top + r.uniform(0.5, 30.0)              # above the top layer
@@ -61,6 +79,10 @@ class GeoCtx(object):
         self.index = {id(c): i for i, c in enumerate(cols)}
         self.polyf = [[(float(p[0]), float(p[1])) for p in c.polygon] for c in cols]
         self.polyq = [[fpt(p) for p in c.polygon] for c in cols]
+        # canonical views used by the generators only (reproducible whatever order PyTOUGH produced)
+        self.order = sorted(range(self.n), key=lambda i: canon_key(cols[i]))
+        self.rank = {i: r for r, i in enumerate(self.order)}
+        self.polyg = [canonical_polygon(P) for P in self.polyf]
         self.maxside = np.array([float(max(c.side_lengths)) for c in cols])
         bb = np.array([[min(p[0] for p in P), min(p[1] for p in P), max(p[0] for p in P), max(p[1] for p in P)]
                        for P in self.polyf])
@@ -89,8 +111,12 @@ class GeoCtx(object):
         self._wire = None
 
     def nbrs(self, i):
-        """neighbours of column i as a list in columnlist order (deterministic)"""
-        return sorted(self.cols[i].neighbour, key=lambda c: self.index[id(c)])
+        """neighbours of column i as a list in columnlist order (canonical order: reproducible)"""
+        return sorted(self.cols[i].neighbour, key=lambda c: self.rank[self.index[id(c)]])
+
+    def pick(self, rng):
+        """a random column index, reproducibly"""
+        return self.order[rng.randrange(self.n)]
 
     # ---- classification helpers ------------------------------------
     def edge_clearance(self, pos):
